@@ -7,7 +7,20 @@ import "fmt"
 // goroutine (harness root) while all threads are parked.
 
 func (l *LockState) freeForWriter() bool {
-	return l.writer == nil && !l.writerUnmgd && len(l.readers) == 0 && l.readersUnmgd == 0
+	return l.writer == nil && !l.writerUnmgd && len(l.readers) == 0 && l.readersUnmgd == 0 && len(l.grantedR) == 0
+}
+
+// freeForReaderT: like freeForReader, but a reader the last unlocking writer has woken is not held back by a
+// writer that queued up behind that writer.
+func (l *LockState) freeForReaderT(t *Thread, wpref bool) bool {
+	if l.writer != nil || l.writerUnmgd {
+		return false
+	}
+	if l.grantedR[t] {
+		return true
+	}
+
+	return !wpref || l.pendingW == 0
 }
 
 func (l *LockState) freeForReader(wpref bool) bool {
@@ -81,6 +94,15 @@ func UnlockW(l *LockState, where string) {
 	s.mu.Lock()
 	delete(l.writer.held, l)
 	l.writer = nil
+	// the readers waiting now are released together, ahead of any writer that waits as well
+	for _, o := range s.threads {
+		if o.pend.lock == l && o.pend.kind == "rlock" && o.state == stParked {
+			if l.grantedR == nil {
+				l.grantedR = map[*Thread]bool{}
+			}
+			l.grantedR[o] = true
+		}
+	}
 	s.mu.Unlock()
 }
 
@@ -134,8 +156,9 @@ func LockR(l *LockState, where string) {
 		return
 	}
 	wp := s.WritePref
-	s.park(t, pending{kind: "rlock", obj: where, ready: func() bool { return l.freeForReader(wp) }, lock: l})
+	s.park(t, pending{kind: "rlock", obj: where, ready: func() bool { return l.freeForReaderT(t, wp) }, lock: l})
 	s.mu.Lock()
+	delete(l.grantedR, t)
 	if l.readers == nil {
 		l.readers = map[*Thread]int{}
 	}
